@@ -416,7 +416,7 @@ class Cache(Filter[Iterable[Any], Iterable[Any]]):
         source = self._iter
         try:
             return list(islice(source,n_slice))
-        except Exception:
+        except: #not just Exception: a KeyboardInterrupt in the middle of a read ends the iterator too
             #What has been cached so far is not the complete sequence and the failed iterator can't
             #be continued. We forget both so the next read starts over rather than replaying (and
             #then silently completing with) a truncated sequence. (If there is no source any more
